@@ -123,11 +123,22 @@ def run(chk):
     chk.add_tlc(g, "KeyProofDepsGen", "KeyProofDeps.gen.cfg", "%d replayable scenarios" % len(scen))
     if len(scen) < 10:
         raise vplib.Machinery("only %d zero-commitment scenarios" % len(scen))
+    # what an observer sees of an exponentiation step, by exponent bit (KeyProofView.tla; D53, D59)
+    r = vplib.tlc_mc("KeyProofView", "KeyProofView.mc.cfg", workers=1, timeout=300)
+    views = sorted(set(r.tagged_raw_json("VIEW")))
+    chk.add_tlc(r, "KeyProofView", "KeyProofView.mc.cfg", "BranchHidden, Complete; %d view records" % len(views))
+    if len(views) != 2:
+        raise vplib.Machinery("KeyProofView: %d view records" % len(views))
+    for probe in ("KeyProofView.asis.D59.cfg", "KeyProofView.asis.D53.cfg"):
+        r = vplib.tlc("KeyProofView", probe, timeout=300, allow_fail=True)
+        if "BranchHidden" not in r.invariant_violated and "invariant of BranchHidden is equal to FALSE" not in (r.error or "") + r.out:
+            raise vplib.Machinery("KeyProofView: %s should violate BranchHidden (vacuity)" % probe)
     sp = os.path.join(vplib.sub("c17"), "zeroforge.ndjson")
-    open(sp, "w").write("\n".join(scen) + "\n")
+    open(sp, "w").write("\n".join(scen + views) + "\n")
     res = vplib.vh("kp", ["zeroforge", "--in", sp, "--tier", T, "--seed", seed], timeout=3000)
     c = res.get("counts", {})
-    if not res["violations"] and (c.get("zeroforge:spec=true:code=true", 0) < 1 or c.get("zeroforge:spec=false:code=false", 0) < 30 or not res.get("known_or_violation_kinds_seen", True)):
+    if not res["violations"] and (c.get("zeroforge:spec=true:code=true", 0) < 1 or c.get("zeroforge:spec=false:code=false", 0) < 30 or not res.get("known_or_violation_kinds_seen", True)
+                                  or not any(k.startswith("view:bit=1:buckets=") for k in c) or c.get("exponent-bit-leak:none", 0) < 1):
         raise vplib.Machinery("zero-commitment replay is vacuous: %s" % c)
     chk.add_replay(res, "zero_commitment_forgeries")
     # the representation-proof engine underneath, in a concrete toy group (ZkProof.tla)
